@@ -64,7 +64,7 @@ def gen_case(rng: random.Random, tier: str) -> dict:
         "top_map": rng.choice(ext) if (ext and not g["seeds"] and rng.random() < 0.25) else None,
         "top_map_n": rng.randint(0, 3),
         "reject": rng.random() < 0.08,
-        "reject_kind": rng.choice(["missing", "missing", "on_missing", "select"]),
+        "reject_kind": rng.choice(["missing", "missing", "on_missing", "select", "override", "maxconc0", "maxconc_neg"]),
         "select_seed": rng.randrange(1 << 30) if rng.random() < 0.3 else None,  # explicit select + on_missing="error"
         "cache_fault": rng.choice([None, None, ["set", rng.randrange(4)], ["get", rng.randrange(4)]]) if cache else None,  # the backend itself raises
     }
@@ -158,6 +158,10 @@ def run_case(doc: dict) -> dict:
             kw["on_missing"] = "bogus"
         elif rk == "select":
             kw["select"] = ["no_such_output_name"]
+        elif rk == "override":
+            kw["on_internal_override"] = "bogus"
+        elif rk in ("maxconc0", "maxconc_neg"):
+            pass  # (AsyncRunner only: added per runner below)
         else:
 
             def values(graph, _b=values, _mp=doc.get("top_map")):  # noqa: F811
@@ -194,7 +198,12 @@ def run_case(doc: dict) -> dict:
             cache_m = cache
             if cache is not None and doc.get("cache_fault"):
                 cache_m = FaultyCache(cache, doc["cache_fault"][0], doc["cache_fault"][1], res["stats"])
-            w = run_world(g, values, mode=label, cfg=cfg, faults=copy.deepcopy(faults), run_kwargs=dict(kw), op=op, cache=cache_m, processors_factory=procs)
+            kw_l = dict(kw)
+            if rejecting and doc.get("reject_kind") in ("maxconc0", "maxconc_neg") and label == "async":
+                # a concurrency limit that admits nothing: rejected like any other invalid option (never a hang, never a half-open run)
+                kw_l["max_concurrency"] = 0 if doc["reject_kind"] == "maxconc0" else -1
+                cfg = dict(cfg or {}, max_concurrency=None)
+            w = run_world(g, values, mode=label, cfg=cfg, faults=copy.deepcopy(faults), run_kwargs=kw_l, op=op, cache=cache_m, processors_factory=procs)
             rts.append(w["rt"])
             res["runs"] += 1
             sim_stats(res, w["out"])
